@@ -155,18 +155,8 @@ func halfPipe(src net.Conn, dst net.Conn,
 	buf := make([]byte, 32*1024)
 	for {
 		nr, er := src.Read(buf)
-		if er != nil {
-			if nr > len(buf) {
-				log.Errorf("unexpected read len error - up:%t (%dB): %s", isUpload, nr, er)
-			}
-			if e := generalizeErr(er); e != nil {
-				if isUpload {
-					stats.ClientConnErr = e.Error()
-				} else {
-					stats.CovertConnErr = e.Error()
-				}
-			}
-			break
+		if er != nil && nr > len(buf) {
+			log.Errorf("unexpected read len error - up:%t (%dB): %s", isUpload, nr, er)
 		}
 		if nr > 0 {
 			if nr > len(buf) && er == nil {
@@ -199,6 +189,19 @@ func halfPipe(src net.Conn, dst net.Conn,
 				break
 			}
 
+		}
+
+		// A Read may return nr > 0 together with an error (io.Reader allows it, e.g. the last bytes
+		// of a stream with io.EOF): those bytes have been forwarded above before the error ends the loop.
+		if er != nil {
+			if e := generalizeErr(er); e != nil {
+				if isUpload {
+					stats.ClientConnErr = e.Error()
+				} else {
+					stats.CovertConnErr = e.Error()
+				}
+			}
+			break
 		}
 
 		// refresh stall timeout - set both because it only happens on write so if connection is
